@@ -28,7 +28,7 @@ PROPS = {
     'C02': dict(
         title='exact accounting', level='proof', templates=['l2'],
         k_quick=['q_op_clear', 'q_op_retain', 'q_op_clone', 'q_drain', 'q_sub_realloc_grow', 'q_sub_remove_entry', 'q_forget_drain'],
-        k_thorough=['t_op_clear', 't_op_retain', 't_op_clone', 't_drain', 't_sub_realloc', 't_sub_remove_entry', 't_op_clone_diverge_touch', 't_op_clone_diverge_clear', 't_op_clone_diverge_retain'],
+        k_thorough=['t_op_clear', 't_op_retain', 't_op_clone', 't_drain', 't_sub_realloc', 't_sub_remove_entry', 't_op_clone_diverge_touch', 't_op_clone_diverge_clear', 't_op_clone_diverge_retain', 't_framec_remove'],
         assumptions=[A_SUB, A_HB, A_DOUBLE, A_PURE, A_SIZE, A_ARITH, A_UNSAFE, A_KBOUND],
         design='DESIGN.md §5 C02'),
     'C03': dict(
@@ -48,7 +48,7 @@ PROPS = {
         title='recency order', level='proof', templates=['l2', 'iter'],
         k_quick=['q_sub_touch_ptr', 'q_sub_touch_ptr_only', 'q_sub_insert_set_head', 'q_sub_lru_mru_ptr', 'q_sub_realloc_grow',
                  'q_op_clone', 'q_op_retain', 'q_iter_link', 'q_it_iter'],
-        k_thorough=SUB_T + ['t_op_clone', 't_op_retain', 't_iter_link', 't_it_borrowing', 't_frame_debug', 't_framec_touch'],
+        k_thorough=SUB_T + ['t_op_clone', 't_op_retain', 't_iter_link', 't_it_borrowing', 't_frame_debug', 't_framec_touch', 't_framec_get_lru'],
         assumptions=[A_SUB, A_HB, A_DOUBLE, A_EQ, A_MODEL, A_KBOUND,
                      '&self operations cannot change the abstract table value in Verus; that they do not write is C19 (Kani, bounded)'],
         design='DESIGN.md §5 C05'),
